@@ -216,6 +216,13 @@ theorem compileGlobal_T {n : Ast} {prog : Prog} (h : compileGlobal n = .ok prog)
   simp only [compileGlobal, getStrList_T L (by tlit) h1, bind, Except.bind, pure, Except.pure]
   rfl
 
+theorem compileNonlocal_T {n : Ast} {prog : Prog} (h : compileNonlocal n = .ok prog) :
+    compileNonlocal (T n) = .ok (prog.map (Instr.mapK T)) := by
+  simp only [compileNonlocal, bind_ok_iff, pure_ok_iff] at h
+  obtain ⟨names, h1, rfl⟩ := h
+  simp only [compileNonlocal, getStrList_T L (by tlit) h1, bind, Except.bind, pure, Except.pure]
+  rfl
+
 theorem compileNamedExpr_T {n : Ast} {prog : Prog} (h : compileNamedExpr n = .ok prog) (ht : TgtOK okPos prog) :
     compileNamedExpr (T n) = .ok (prog.map (Instr.mapK T)) := by
   simp only [compileNamedExpr, bind_ok_iff, pure_ok_iff] at h
